@@ -8,8 +8,11 @@ FUNCS = ['soupsieve.css_types.Immutable.__init__/__eq__/__ne__/__hash__/__setatt
 CONDS = [
     Cond('eq_hash_ok', 'compile(x) == compile(y) <=> x, y equal as (pattern, namespaces, custom, flags); equal => equal '
          'hash and one set member; with and without a purge in between',
-         '19 argument tuples (reordered maps, 0/False/True/DEBUG, None vs {}, case, whitespace, equal An+B spellings) squared',
+         '27 argument tuples (reordered maps, 0/False/True/DEBUG, None vs {}, case, whitespace, equal An+B spellings) squared',
          timeout={'quick': 100, 'thorough': 300}),
+    Cond('ir_eq_repr_ok', 'equality of compiled structures == equality of their reprs (every slot, incl. regex flags), for all '
+         'pairs of the pool; equal => equal hash', 'general pool + 37 near-miss selectors (differing in one combinator, flag, '
+         'pseudo-class, namespace prefix ...), all pairs', timeout={'quick': 100, 'thorough': 300}, parts={'quick': 2, 'thorough': 2}),
     Cond('immutable_ok', 'setattr / delattr on every slot of every node of the compiled structure raise AttributeError; '
          'maps reject item assignment; repr unchanged; every node hashable',
          'general selector pool (one spelling of every pseudo-class + basics) with namespaces and a custom map',
